@@ -51,8 +51,8 @@ PROPS = {
         "lean": ["C17"],
         "required": ["C17.c17_member_free_ordered", "C17.c17_member_free_most", "C17.c17_member_free_random", "C17.c17_zone",
                      "C17.c17_ordered_first", "C17.c17_most_max", "C17.c17_complete", "C17.c17_caller_list_untouched",
-                     "C17.c17_exhausted_not_chosen", "C17.block_marks", "C17.getOne_choice"],
-        "rule": "random histories on the real SwitchPool (hooked fake clock, fake VPC client): 2-7 vSwitches over 3 zones with free counts incl. 0, "
+                     "C17.c17_exhausted_not_chosen", "C17.block_marks", "C17.getOne_choice", "C17.c17_factory_exhausted_not_chosen_again"],
+        "rule": "(f) 30 / 300 ops fa.exhaust: how an exhaustion reaches the pool - the real factory's CreateNetworkInterface over the real SwitchPool (ttl 10 m) and the real OpenAPI wrappers (scripted ECS + VPC transports): 1-3 candidate vSwitches that all report addresses left while every create in them is refused as InvalidVSwitchId.IpNotEnough, two orders in a row; the vSwitches named by the create requests of each order are compared with Model/Factory.lean exhaustTwice, monitor C17/factory/exhausted-chosen-again. random histories on the real SwitchPool (hooked fake clock, fake VPC client): 2-7 vSwitches over 3 zones with free counts incl. 0, "
                 "GetOne with all four policy values (ordered/most/random/empty), zone fallback on/off, candidate lists of 0-6 ids incl. duplicates and unknown ids, "
                 "Block (in 30% of the cases followed by a read shortly before the entry expires and a selection shortly after: a read must not prolong the exhausted mark; preceded by a look-up that is single or, in a quarter of the cases, 2-4 concurrent look-ups sharing one describe call: op vsw.getpar, monitor: the entry is cached afterwards), clock steps around the TTL boundary (ttl-1, ttl, ttl+1), cloud changes/removals, Add. Model predicts choice and caller slice for "
                 "ordered/most/default, validates the observed choice for random; Go monitors on every selection: member of the list, zone, free addresses, not blocked, caller slice untouched, and for ordered / default no earlier eligible candidate. non-trivial = history with at least one selection and one Block; distinct = distinct op sequence.",
